@@ -128,6 +128,21 @@ class MulticastOutgoingQueue:
             loop.call_at(loop.time() + millis_to_seconds(self.queue[0].send_after - now), self.async_ready)
 
         if answers:  # pragma: no branch
-            # If we have the same answer scheduled to go out, remove them
-            self._remove_answers_from_queue(answers)
+            # If we have the same answer scheduled to go out, remove them:
+            # from this and from the other multicast queue, and also what
+            # goes out now as an additional record. It reaches everybody now,
+            # a copy that was queued for a later time before this one was
+            # sent would follow it within the same second
+            self.async_remove_sent(answers)
+            for queue in (zc.out_queue, zc.out_delay_queue):
+                if queue is not self:
+                    queue.async_remove_sent(answers)
             zc.async_send(construct_outgoing_multicast_answers(answers))
+
+    def async_remove_sent(self, answers: _AnswerWithAdditionalsType) -> None:
+        """Remove the queued answers that are multicast now, as an answer or as an additional."""
+        sending: _AnswerWithAdditionalsType = dict(answers)
+        for additionals in answers.values():
+            for additional in additionals:
+                sending.setdefault(additional, set())
+        self._remove_answers_from_queue(sending)
